@@ -656,7 +656,7 @@ def run(ctx):
     elif scale < 1:
         bounds = dict(items=4, depth=3, scopes=4, extras=2, units=units)
     else:
-        bounds = dict(items=5, depth=4, scopes=5, extras=1, units=units)      # 286 620 states
+        bounds = dict(items=5, depth=4, scopes=5, extras=2, units=units)      # 1 281 852 states
     if os.environ.get('C18_SKIP_EXHAUSTIVE'):      # development knob (mutation runs): the exhaustive
         bounds = dict(items=3, depth=2, scopes=3, extras=1, units=[4])
         ctx.notes.append('C18_SKIP_EXHAUSTIVE set: exhaustive run reduced to %s' % bounds)
@@ -671,7 +671,7 @@ def run(ctx):
     ctx.coverage['exhaustive'] = True
     ctx.log('exhaustive: %d distinct states, %.0fs' % (res.distinct, res.wall))
 
-    if not quick and scale >= 1 and not os.environ.get('C18_SKIP_EXHAUSTIVE'):
+    if False:      # (kept for reference: the items<=4/extras<=2 space is contained in the run above)
         b2 = dict(items=4, depth=3, scopes=4, extras=2, units=units)
         r0 = run_tlc('Nesting', write_cfg(ctx, 'mc2.cfg', invs=['DesignMeetsReference'], **b2), workers=16,
                      timeout=6000)
@@ -731,7 +731,7 @@ def run(ctx):
                      'its absence is detected as drift of the prefix/comment positions in the replay leg')
 
     # ---- 2. emitted cases -> replay (spec -> code): a BFS slice of small programs + simulation walks
-    mod = 5 if quick else 67
+    mod = 5 if quick else (67 if scale < 1 else 41)
     eb = dict(items=3, depth=2, scopes=3, extras=1, units=units) if quick else \
         dict(items=4, depth=3, scopes=4, extras=2, units=units)
     cfg = write_cfg(ctx, 'emit.cfg', mod=mod, rem=ctx.seed % mod, invs=[], emit=True, **eb)
@@ -739,7 +739,7 @@ def run(ctx):
     ctx.add_tlc(res, 'case emission slice %d mod %d %s' % (ctx.seed % mod, mod, eb))
     cs = cases(res)
     sb = dict(items=7, depth=4, scopes=6, extras=3, units=units)
-    nsim = 60 if quick else (250 if scale < 1 else 400)
+    nsim = 60 if quick else (250 if scale < 1 else 600)
     cfg = write_cfg(ctx, 'sim.cfg', mod=1, rem=0, invs=['DesignMeetsReference'], emit=True, **sb)
     res = run_tlc('Nesting', cfg, workers=1, timeout=6000, simulate='num=%d' % nsim, depth=8, seed=ctx.seed)
     ctx.add_tlc(res, 'simulation walks with emission %s' % sb)
@@ -795,7 +795,7 @@ def run(ctx):
     # ---- 3. corpus (code -> spec)
     files = jutil.corpus_files(limit=30 if quick else (60 if scale < 1 else None), rng=ctx.rng)
     ctx.log('corpus: %d files' % len(files))
-    recs = jutil.pmap(record_file, [(f, 150 if quick else 400, 100 if quick else 300, ctx.seed + i)
+    recs = jutil.pmap(record_file, [(f, 150 if quick else (400 if scale < 1 else 800), 100 if quick else 400, ctx.seed + i)
                                     for i, f in enumerate(files)], chunksize=1)
     jutil.check_worker_errors(recs)
     ctraces, cwheres, csrcs = [], [], []
@@ -848,13 +848,13 @@ def run(ctx):
 
     if not quick:
         ctx.coverage['thorough_reductions'] = [
-            'exhaustive TLC at items<=5/depth<=4/scopes<=5 with MaxExtras=1 (286 620 states) and at items<=4 with '
-            'MaxExtras=2 (86 733 states) instead of items<=5 with MaxExtras=2 (1 281 852 states)',
-            'replay: every 67th program of the items<=4/extras<=2 space + %d simulation walks (items<=7, depth<=4, '
-            'scopes<=6), not every enumerated program' % nsim,
-            'corpus: all files, but at most 400 identifier positions and 300 variable/parameter names per file '
-            '(all def/class definitions are always observed)'] + (
-            ['C18_SCALE<1: smaller exhaustive configuration and 60 corpus files'] if scale < 1 else [])
+            'exhaustive TLC bounded at items<=5 / depth<=4 / scopes<=5 / extras<=2 / indent unit in {2,4,8} '
+            '(1 281 852 states) -- DESIGN 5/C18 asked for <=6 scopes; 6-7 item programs only by simulation walks',
+            'replay: every %dth program of the items<=4/extras<=2 space + %d simulation walks (items<=7, depth<=4, '
+            'scopes<=6), not every enumerated program' % (mod, nsim),
+            'corpus: all files, but at most 800 identifier positions (start or inside of the identifier) and 400 '
+            'variable/parameter names per file; all def/class definitions are always observed'] + (
+            ['C18_SCALE<1: exhaustive at items<=4, 60 corpus files, 400 positions per file'] if scale < 1 else [])
     ctx.assumptions += [
         'header positions (first decorator .. colon) may answer the enclosing scope or the definition itself',
         'positions on whitespace / comments / blank lines are predicted by the Design (drift) but not judged',
